@@ -49,7 +49,7 @@ def runProvDropBusy : List Label :=
 /-- connection loss with a request executing and one on its way -/
 def runConnLoss : List Label :=
   [.issue 5, .issue 7, .enqueue 0, .dequeue, .connLoss, .sendFail 1, .recvReply 1, .recvReply 0,
-   .execStep 0, .execStep 0, .deliver 0, .serveEnd]
+   .execStep 0, .execStep 0, .deliver 0, .serveEnd, .closeSeen 0, .closeSeen 1]
 
 /-- an argument that cannot be serialised: the call fails, the sender is marked as failed, the
 next (harmless) call fails as well and the provider's receiver ends -/
